@@ -73,6 +73,25 @@ def run(ctx):
             img = maptrace.gen_scenario(rng, tree=tj, ncell=rng.randint(1, 6),
                                         cfg={'drop': None, 'flatten': False})
             safe_markers(rng, img)
+            hier_ = tj['hier']
+            if kind == 'drop' and hier_.index(lev) < len(hier_) - 2 and rng.random() < 0.6:
+                # a parent BELOW the dropped level with fewer usable markers than min_markers: its list is topped up
+                # from its ancestors in the REDUCED tree (never from the dropped level's node); the dropped node, the
+                # retained ancestors and the root each list different genes
+                usable = [g for g in img['qgenes'] if g <= img['G']]
+                j = rng.randrange(hier_.index(lev) + 1, len(hier_) - 1)
+                cands = [n for n, ks in tj['kids'][j] if len(ks) > 1]
+                if cands and len(usable) >= 3:
+                    n0 = rng.choice(cands)
+                    rng.shuffle(usable)
+                    img['markers'][f'{hier_[j]}/{n0}'] = [usable[0]]
+                    i_l = hier_.index(lev)
+                    anc = n0
+                    for jj in range(j, i_l, -1):
+                        anc = next(p_ for p_, ks in tj['kids'][jj - 1] if anc in ks)
+                    img['markers'][f'{lev}/{anc}'] = sorted(usable[1:2 + (len(usable) > 3)])
+                    img['markers']['0/0'] = sorted(usable[2:])
+                    img['cfg']['minm'] = 3
             base = copy.deepcopy(img)
             red = dict(reduced)
             red['cells'] = [[n, []] for n in red['nodes'][-1]]
@@ -111,7 +130,7 @@ def run(ctx):
                 base['markers'] = {'0/0': allg}
             else:
                 img['cfg']['drop_name'] = rng.choice(['no_such_level', 'prefix-of-top', 'top-with-blank', 'blank-top'])
-            scheme = rng.choice(['structural', 'reversed', 'shared', 'prefix'])
+            scheme = rng.choice(['structural', 'reversed', 'shared', 'prefix', 'longtop'])
             items.append((img, scheme, {}))
             items.append((base, scheme, {}))
             meta.append((kind, lev))
